@@ -50,6 +50,17 @@ def partner(atoms, k):
     return None
 
 
+def partner_literal(atoms, k):
+    """the property's words read literally: the first later atom at which the running balance (of all three kinds) is
+    back to zero — whether or not it went negative on the way"""
+    c = list(bal(atoms[k]))
+    for j in range(k + 1, len(atoms)):
+        c = [a + b for a, b in zip(c, bal(atoms[j]))]
+        if not any(c):
+            return j
+    return None
+
+
 def required_rejections(name, best):
     atoms = [p for p, r in zip(best[1], best[2]) if r]
     n = len(atoms)
@@ -66,21 +77,27 @@ def required_rejections(name, best):
                     j = partner(atoms, k)
                     if j is not None:
                         req.append(({k, j}, f"unbalanced atom {k} with its partner {j}"))
+                    else:
+                        jl = partner_literal(atoms, k)
+                        if jl is not None:
+                            # recorded finding: the search is abandoned once a balance is negative
+                            req.append(({k, jl}, f"unbalanced atom {k} with atom {jl}, where the running balance first returns to zero "
+                                        "after having been negative", "partner-after-negative"))
     return req
 
 
 def check_fixpoint(ctx, name, run, table, case, total_fn=None):
-    for idxs, what in required_rejections(name, run.best):
+    for idxs, what, *kf in required_rejections(name, run.best):
         c = strat.content(del_set(run.best, idxs))
         if c in table:
             if table[c]:
-                ctx.fail("not-a-fixpoint", f"{name}: deleting {what} gives {c!r}, which the test accepted", case)
+                ctx.fail(kf[0] if kf else "not-a-fixpoint", f"{name}: deleting {what} gives {c!r}, which the test accepted", case)
                 return
         elif total_fn is not None:
             if total_fn(c):
-                ctx.fail("not-a-fixpoint", f"{name}: deleting {what} gives {c!r}: never tested, and the test accepts it", case)
+                ctx.fail(kf[0] if kf else "not-a-fixpoint", f"{name}: deleting {what} gives {c!r}: never tested, and the test accepts it", case)
                 return
-        else:
+        elif not kf:
             ctx.fail("deletion-never-tested", f"{name}: deleting {what} gives {c!r}, which was never tested", case)
             return
 
@@ -220,6 +237,12 @@ def move_runs(ctx, reps):
                 check_fixpoint(ctx, "minimize-balanced", run, table, case, fn)
 
 
+def known_finding_cases(ctx):
+    f = (b"", [b"}\n", b"x\n", b"{\n"], [True] * 3, b"")
+    ok = {b"}\nx\n{\n", b"x\n"}
+    one(ctx, "minimize-balanced", dict(), f, lambda k, c: c in ok, total_fn=lambda c: c in ok, label="known-finding")
+
+
 def search(ctx):
     move_runs(ctx, 60)
     trees(ctx, 4, 600, 30, do_model=False)
@@ -228,6 +251,7 @@ def search(ctx):
 
 def run(ctx) -> int:
     proof = common.proof_stage(ctx.pid)
+    known_finding_cases(ctx)
     complete = trees(ctx, 5 if ctx.thorough else 4, 3000 if ctx.thorough else 600, 40 if ctx.thorough else 12)
     if complete:
         ctx.exhaustive.append("every deterministic test (complete verdict tree) for the listed arrangements of n <= 4 (quick) / 5 (thorough) bracket-bearing atoms")
